@@ -1167,6 +1167,10 @@ def discharge(ctx, o, audited=None):
         ok2, how2 = path_sensitive(ctx, o)
         if ok2:
             ok, how = True, how2
+    if not ok and o.kind in ("assert", "call", "panic") and not getattr(ctx, "_in_context", False):
+        ok2, how2 = under_call_contexts(ctx, o)
+        if ok2:
+            ok, how = True, how2
     o.verdict = "PROVED" if ok else "OPEN"
     o.how = how
     if not ok and audited:
@@ -1180,10 +1184,99 @@ def discharge(ctx, o, audited=None):
     return o
 
 
-def path_sensitive(ctx, o, limit=256):
+_CONTEXTS = {}
+
+
+def call_contexts(prog, fn, depth=0):
+    """For a private free function: one {symbol: (lo, hi)} box per workspace call site, giving the proven range of each
+    integer argument (`argN`) and of the length of each slice argument (`L` / `len(argN)`) at that site.  None if the
+    function is public, a trait/inherent method, or has no resolved call site."""
+    key = (id(prog), fn)
+    if key in _CONTEXTS:
+        return _CONTEXTS[key]
+    _CONTEXTS[key] = None
+    b = prog.bodies.get(fn)
+    if b is None or b.kind != "Fn" or b.j.get("is_pub") or b.j.get("impl_trait") or depth > 2:
+        return None
+    from .invariants import tighten
+    out = []
+    for caller in sorted(prog.callers().get(fn, ())):
+        cb = prog.bodies.get(caller)
+        if cb is None:
+            return None
+        cctx = Ctx(prog, cb)
+        cctx._in_context = True
+        n_here = 0
+        for bb, t in cb.calls():
+            if (t.get("resolved") or t.get("callee")) != fn and cname(t) != fn:
+                continue
+            n_here += 1
+            box = {}
+            for i, a in enumerate(t["args"], start=1):
+                if i > b.argc:
+                    break
+                ty = b.locals[i]["ty"]
+                term = cctx.an.terms.operand(a)
+                if ty.get("k") == "int":
+                    p = cctx.sy.poly(term)
+                    nm = "arg%d" % i
+                elif ty.get("k") == "ref" and ty["t"].get("k") in ("slice", "str", "array"):
+                    p = seq_len_poly(cctx, term)
+                    nm = "L" if i == ctx_slice_param(b) else "len(arg%d)" % i
+                else:
+                    continue
+                if p is None:
+                    continue
+                pr, _, _ = cctx.prover_at(bb, [p])
+                lo, hi = poly_interval(p, pr.box)
+                lo, hi = tighten(pr, p, lo, hi)
+                box[nm] = (None if lo is None else int(lo), None if hi is None else int(hi))
+            out.append((caller, box))
+        if n_here == 0:
+            # referenced but not called directly (passed as a function value): no context
+            return None
+    _CONTEXTS[key] = out or None
+    return _CONTEXTS[key]
+
+
+def ctx_slice_param(body):
+    for i in range(1, body.argc + 1):
+        ty = body.locals[i]["ty"]
+        if ty.get("k") == "ref" and ty["t"].get("k") in ("slice", "str"):
+            return i
+    return 99
+
+
+def under_call_contexts(ctx, o):
+    """a private helper's obligation holds if it holds under the argument ranges of each of its call sites"""
+    cs = call_contexts(ctx.prog, ctx.body.path)
+    if not cs:
+        return False, ""
+    for caller, box in cs:
+        c2 = Ctx(ctx.prog, ctx.body)
+        c2._in_context = True
+        c2.param_box = dict(box)
+        try:
+            if o.kind == "assert":
+                ok, how = c2.prove_bool(o.bb, o.term, o.expected)
+            elif o.kind == "call":
+                ok, how = CALL_RULES[o.desc](c2, o)
+            else:
+                ok, how = unreachable(c2, o)
+        except RecursionError:
+            ok, how = False, "recursion"
+        if not ok:
+            return False, "fails under the arguments passed by %s: %s" % (short(caller), how)
+    return True, "holds under the argument ranges of each of %d call site(s)" % len(cs)
+
+
+PATH_LIMIT = [256]
+
+
+def path_sensitive(ctx, o, limit=None):
     """retry the obligation on every acyclic path to the site (loop bodies entered at most once)"""
     from .sym import forward_paths
-    paths = forward_paths(ctx.an, o.bb, limit=limit)
+    paths = forward_paths(ctx.an, o.bb, limit=limit or PATH_LIMIT[0])
     if not paths or len(paths) < 2:
         return False, ""
     n = 0
